@@ -398,7 +398,7 @@ def layers(tier):
                     '6 entry points on tables / candidate sets of n = 1..%d rows with exactly one output row per '
                     'input row x every n_jobs in 1..n+1 (all chunk boundaries split_table can produce for these '
                     'sizes): no row lost or duplicated' % (nmax - 1), min_nontrivial=1000, chunksize=1))
-    jobs = [{'ep': ep, 'family': fi} for ep in ALL_EPS for fi in (1, 5, 2, 3)] + \
+    jobs = [{'ep': ep, 'family': fi} for ep in ALL_EPS for fi in (1, 5, 2, 3, 0)] + \
         [{'ep': ep, 'family': 6} for ep in ('join:EDIT_DISTANCE', 'join:JACCARD', 'candset:Size', 'matcher')] + \
         [{'ep': ep, 'family': 7} for ep in ALL_EPS] + [{'ep': ep, 'family': 8} for ep in ALL_EPS]
     Ls.append(Layer('presentation', 'checks.c10:w_perm', jobs,
